@@ -53,7 +53,10 @@ static const std::vector<std::string>& value_pool()
                                                 "18446744073709551615", "9223372036854775808",
                                                 "9223372036854775807", "-9223372036854775808", "4294967296",
                                                 ";",     "a;",    ";;",     ";b",   "prog", "main",
-                                                "\xe2\x80\x93" "20", "\xe2\x80\x94", "2.5", "10%", "12abc" };
+                                                "\xe2\x80\x93" "20", "\xe2\x80\x94", "2.5", "10%", "12abc",
+                                                std::string(63, '\x85'), std::string(64, '\x9f'),
+                                                std::string(65, '\x80'), std::string(70, '\xbf'),
+                                                "inf", "nan", "1", "11" };
     return p;
 }
 
@@ -275,6 +278,24 @@ static void gen_env(vf::Src& src, const Case& c, Step& s, int p_set)
         {
             s.env_state[i] = 2;
             s.env_word[i] = gen_env_word(src, c.e[i].kind);
+            // now and then the variable holds exactly the declared default
+            if (c.e[i].has_default && src.coin(15))
+            {
+                if (c.e[i].kind == OPTION && !c.e[i].def.empty())
+                    s.env_word[i] = c.e[i].def;
+                else if (c.e[i].kind == MULTI && !c.e[i].mdef.empty())
+                {
+                    std::string w;
+                    bool ok = true;
+                    for (auto& d : c.e[i].mdef)
+                    {
+                        ok &= !d.empty() && d.find(';') == std::string::npos && d.find('\0') == std::string::npos;
+                        w += (w.empty() ? "" : ";") + d;
+                    }
+                    if (ok)
+                        s.env_word[i] = w;
+                }
+            }
         }
     }
 }
@@ -695,6 +716,24 @@ static void gen_c03(vf::Src& src, Case& c, bool exhaustive)
                 w = e.kind == TOGGLE ? (flag(src, true, 50) ? "yes" : "OFF") : (e.kind == MULTI ? "e1;-e2;--x=y" : "--env=word");
             else
                 w = gen_env_word(src, e.kind);
+            // now and then the variable holds exactly what the declaration gives as default
+            if (!exhaustive && e.has_default && src.coin(15))
+            {
+                if (e.kind == OPTION && !e.def.empty())
+                    w = e.def;
+                else if (e.kind == MULTI && !e.mdef.empty())
+                {
+                    std::string j;
+                    bool ok = true;
+                    for (auto& d : e.mdef)
+                    {
+                        ok &= !d.empty() && d.find(';') == std::string::npos;
+                        j += (j.empty() ? "" : ";") + d;
+                    }
+                    if (ok)
+                        w = j;
+                }
+            }
             if (w.empty())
                 w = "w";
         }
@@ -1152,7 +1191,7 @@ static std::string check_vocab(const Case& c, vf::Ctx& ctx)
     ctx.mark_nontrivial();
     // the full path (declared toggle, bound variable, parse) for the words of up to two characters
     nitro::options::parser full("vocab");
-    full.toggle("t").env("NITRO_VERIF_VOCAB");
+    full.toggle("t").env("NITRO_VERIF_Vocab");
     std::uint64_t words = 0, through_parser = 0;
     std::string w = plen == 2 ? std::string(1, A[block / A.size()]) + A[block % A.size()] : std::string(1, A[block]);
     std::vector<std::size_t> idx;
@@ -1184,7 +1223,7 @@ static std::string check_vocab(const Case& c, vf::Ctx& ctx)
         if (word.size() <= 2)
         {
             ++through_parser;
-            ::setenv("NITRO_VERIF_VOCAB", word.c_str(), 1);
+            ::setenv("NITRO_VERIF_Vocab", word.c_str(), 1);
             int pg;
             try
             {
@@ -1201,7 +1240,7 @@ static std::string check_vocab(const Case& c, vf::Ctx& ctx)
                 err = "a toggle whose variable holds " + vf::vis(word) + ": parse() raised another exception type: " + e.what();
                 pg = want;
             }
-            ::unsetenv("NITRO_VERIF_VOCAB");
+            ::unsetenv("NITRO_VERIF_Vocab");
             if (err.empty() && pg != want)
                 err = "a toggle whose variable holds " + vf::vis(word) + " reports " + std::to_string(pg) +
                       " (-1 = rejected), the documented vocabulary says " + std::to_string(want);
